@@ -1,6 +1,7 @@
 package vuego
 
 import (
+	"errors"
 	"fmt"
 	"strings"
 
@@ -177,8 +178,13 @@ func (v *Vue) evalBoundAttribute(ctx VueContext, attrName, expr string) (any, er
 	}
 	// Not a path into the data: it may still be an expression without spaced
 	// operators (a literal, !flag, n>3), as accepted by v-if
-	if res, err := v.exprEval.Eval(expr, v.exprEnv(ctx, expr)); err == nil && res != nil {
+	res, err := v.exprEval.Eval(expr, v.exprEnv(ctx, expr))
+	if err == nil && res != nil {
 		return res, nil
+	}
+	if fe := (*funcCallError)(nil); errors.As(err, &fe) {
+		// (a function that fails inside the expression fails the render: !fail(x), fail(x)>1)
+		return "", fmt.Errorf("in expression '%s': %w", expr, err)
 	}
 	return "", nil
 }
